@@ -49,6 +49,17 @@ type histCall struct {
 	Attrs  []vlib.ExpAttr
 	Thru   bool
 	Panics int // 0: no; 1: one attribute value panics in its String method (the caller recovers); 2: the same inside a group
+	Reads  int // > 0: one attribute is an ObjectMarshaller that consumes this many bytes of the encoder it is handed (Next) before writing
+}
+
+// consumer is a user marshaller that uses the read half of the encoder's buffer interface.
+type consumer struct{ n int }
+
+func (c consumer) MarshalSlogObject(enc *slog.PrintCtx) error {
+	_ = enc.Next(c.n)
+	_, _ = enc.ReadByte()
+	_, err := enc.WriteString("consumed")
+	return err
 }
 
 // panicky is a Stringer whose String method reads a field: it panics on a nil pointer.
@@ -118,6 +129,9 @@ func genHistory(t *rapid.T, label string, nLoggers int) []histCall {
 		}
 		if rapid.Bool().Draw(t, "hattrs") {
 			h[i].Attrs = genAttrs(t)
+		}
+		if rapid.IntRange(0, 9).Draw(t, "hreads") == 0 {
+			h[i].Reads = rapid.SampledFrom([]int{1, 5, 40, 400, 5000}).Draw(t, "hreadsN")
 		}
 		if rapid.IntRange(0, 11).Draw(t, "hpanics") == 0 {
 			h[i].Panics = rapid.IntRange(1, 2).Draw(t, "hpanicsWhere")
@@ -232,6 +246,9 @@ func property(t *rapid.T, mode string, sink func([]byte)) {
 			do := func(c histCall) {
 				l := hl[c.Logger]
 				attrs := vlib.AttrsOf(c.Attrs)
+				if c.Reads > 0 {
+					attrs = append(attrs, slog.NewAttr("rd", consumer{c.Reads}))
+				}
 				if c.Panics > 0 {
 					// a value that panics while it is formatted; the caller recovers, as a server does per request
 					defer func() { _ = recover() }()
@@ -334,6 +351,9 @@ func property(t *rapid.T, mode string, sink func([]byte)) {
 				}
 				if c.Panics > 0 {
 					nt["history-has-a-recovered-panic"] = true
+				}
+				if c.Reads > 0 {
+					nt["history-has-a-marshaller-reading-from-the-encoder"] = true
 				}
 			}
 		}
